@@ -632,3 +632,78 @@ Proof.
     destruct e; cbn [e2e_step e_srv]; try exact H; try discriminate; rewrite H; reflexivity. }
   intros Hf. apply G; [reflexivity|exact Hf].
 Qed.
+
+(* ---------- 6. muxer: response before hand-off ---------- *)
+
+Lemma resp_bytes_nil R p : existsb is_resp p = false -> resp_bytes R p = [].
+Proof.
+  induction p as [|o p IH]; cbn; [reflexivity|]. destruct o; cbn; try discriminate; exact IH.
+Qed.
+
+Definition mh_inv (R : bytes) (p0 : list mux_op) (bs : list bytes) (st : mh_state) : Prop :=
+  (mh_handed st = false /\ mh_chunks st = bs /\ mh_out st ++ resp_bytes R (mh_prog st) = resp_bytes R p0 /\
+   resp_before_handoff (mh_prog st) = true) \/
+  (mh_handed st = true /\ existsb is_resp (mh_prog st) = false /\
+   mh_out st ++ List.concat (mh_chunks st) = resp_bytes R p0 ++ List.concat bs).
+
+Lemma mh_inv_step R p0 bs st t : mh_inv R p0 bs st -> mh_inv R p0 bs (mh_step R st t).
+Proof.
+  intros [(Hh & Hc & Ho & Hr)|(Hh & Hr & Ho)]; destruct t; unfold mh_step.
+  - destruct (mh_prog st) as [|o r] eqn:Ep; [left; rewrite Ep; auto|].
+    destruct o; cbn [resp_before_handoff resp_bytes] in *.
+    + left. cbn. repeat split; auto. rewrite <- app_assoc. exact Ho.
+    + right. cbn. apply Bool.negb_true_iff in Hr. split; [reflexivity|]. split; [exact Hr|].
+      rewrite (resp_bytes_nil R r Hr), app_nil_r in Ho. rewrite Ho, Hc. reflexivity.
+    + left. cbn. auto.
+  - rewrite Hh. left. auto.
+  - destruct (mh_prog st) as [|o r] eqn:Ep; [right; rewrite Ep; auto|].
+    cbn [existsb] in Hr. apply Bool.orb_false_iff in Hr. destruct Hr as [Ho' Hr].
+    destruct o; cbn in Ho'; try discriminate; right; cbn; auto.
+  - rewrite Hh. destruct (mh_chunks st) as [|c r] eqn:Ec; [right; rewrite Ec; auto|].
+    right. cbn. split; [reflexivity|]. split; [exact Hr|].
+    cbn [List.concat] in Ho. rewrite <- app_assoc. exact Ho.
+Qed.
+
+(* tcpmux_response_precedes_payload: if the muxer's program writes its answer only before the hand-off then,
+   for ALL schedules of the muxer goroutine and the proxy goroutine and all backend chunks, what the user has
+   received at any moment is a prefix of  answer ++ backend bytes: nothing reordered, nothing injected *)
+Theorem mux_response_precedes_payload : forall R p bs sched,
+  resp_before_handoff p = true ->
+  exists rest, resp_bytes R p ++ List.concat bs = mh_out (mh_run R sched (mh_init p bs)) ++ rest.
+Proof.
+  intros R p bs sched Hp.
+  assert (G : forall st, mh_inv R p bs st -> mh_inv R p bs (mh_run R sched st)).
+  { unfold mh_run. induction sched as [|t l IH]; intros st H; cbn; [exact H|]. apply IH, mh_inv_step, H. }
+  assert (H0 : mh_inv R p bs (mh_init p bs)) by (left; cbn; auto).
+  destruct (G _ H0) as [(_ & _ & Ho & _)|(_ & _ & Ho)].
+  - eexists. rewrite <- Ho, <- app_assoc. reflexivity.
+  - eexists. symmetry. exact Ho.
+Qed.
+
+(* ---------- 7. yamux close drain ---------- *)
+
+Theorem close_drain_complete : forall timeout_ms rate window inflight,
+  0 < rate -> 0 <= inflight <= window -> window * 1000 <= rate * timeout_ms ->
+  drain_delivered timeout_ms rate inflight = inflight.
+Proof.
+  intros T r W n Hr Hn HW. unfold drain_delivered, drain_ms.
+  assert (H : (n * 1000 + r - 1) / r <= T).
+  { apply Z.lt_succ_r. apply Z.div_lt_upper_bound; [exact Hr|]. nia. }
+  apply Z.leb_le in H. rewrite H. reflexivity.
+Qed.
+
+Theorem close_drain_truncated : forall timeout_ms rate inflight,
+  0 < rate -> 0 <= timeout_ms -> timeout_ms < drain_ms inflight rate ->
+  drain_delivered timeout_ms rate inflight < inflight.
+Proof.
+  intros T r n Hr HT H. unfold drain_delivered. destruct (drain_ms n r <=? T) eqn:E; [apply Z.leb_le in E; lia|].
+  unfold drain_ms in H.
+  assert (H1 : (T + 1) * r <= n * 1000 + r - 1).
+  { assert (T + 1 <= (n * 1000 + r - 1) / r) by lia.
+    pose proof (Z.mul_div_le (n * 1000 + r - 1) r Hr). nia. }
+  apply Z.div_lt_upper_bound; [lia|]. nia.
+Qed.
+
+Lemma default_close_drain : forall rate inflight, 20972 <= rate -> 0 <= inflight <= 6291456 ->
+  drain_delivered 300000 rate inflight = inflight.
+Proof. intros rate inflight Hr Hi. apply (close_drain_complete 300000 rate 6291456 inflight); lia. Qed.
